@@ -41,8 +41,9 @@ Theorem C07_alignment_x86 : forall f, wf_in f -> is_x86_family (fi_arch f) = tru
 Proof. exact x86_sp_body_aligned. Qed.
 Print Assumptions C07_alignment_x86.
 
-(* KNOWN FINDING (pinned tree): x86-32 conventions with natural alignment 4 and a requested alignment of 8 get neither the
-   natural nor a dynamic alignment (minimum dynamic alignment is 16) *)
+(* why /repo a1b136b (truthful final alignment) is needed - the variant WITHOUT it (witness has fi_align_fix = false; HEAD always has
+   true, see C07_alignment_x86_fixed): x86-32 conventions with natural alignment 4 and a requested alignment of 8 get neither the
+   natural nor a dynamic alignment (minimum dynamic alignment is 16).  The check reports a tree in this state as VIOLATION. *)
 Theorem C07_alignment_x86_refuted :
   exists f sp0, wf_in f /\ is_x86_family (fi_arch f) = true /\
     (sp0 + reg_size (fi_arch f)) mod cc_natural (fi_cc f) = 0 /\ uses_stack f (finalize f) /\
@@ -80,7 +81,8 @@ Theorem C07_hypotheses_satisfiable :
 Proof. exact ex_win64_sat. Qed.
 Print Assumptions C07_hypotheses_satisfiable.
 
-(* KNOWN FINDINGS of the pinned tree on AArch64, as theorems about the faithful model (witnesses run on the machine) *)
+(* why /repo fef32d9 (AArch64 refusal) and 872941b (SA register) are needed: three witnesses about frames that finalize_error now
+   REFUSES (kInvalidState) resp. about the variant fi_sa_fix = false; HEAD never emits code for them (C07_accepted_frames) *)
 (* DESIGN 7.31: frames with alignment > 16 report dynamic alignment, the prolog never realigns sp *)
 Theorem C07_alignment_a64_refuted :
   exists f s0, wf_in f /\ fi_arch f = A64 /\ st_reg s0 0 31 mod 16 = 0 /\ fo_has_da (finalize f) = true /\
@@ -113,12 +115,13 @@ Theorem C07_roundtrip_a64_noncdecl_refuted :
 Proof. exact a64_noncdecl_vec_refuted. Qed.
 Print Assumptions C07_roundtrip_a64_noncdecl_refuted.
 
-(* AArch64 round trip — for every frame of a cdecl-like convention (AAPCS64 / Apple / Windows ARM64: D registers preserved)
-   without dynamic alignment and — on the pinned tree — with sp as the stack-argument base (the guards are exactly the recorded
-   findings; on a tree with fixes/C07-a64-sa-register.patch, `fi_sa_fix = true`, any SA register and FP-relative arguments are covered), every
-   dirty mask, size, FP setting, entry state and confined body: stp/str pre-index, mov x29, sp, sub sp / add sp, ldp/ldr
-   post-index restore sp, x29, x30 and every callee-saved X/D register and return to the caller's x30; sp is 16-byte aligned
-   at every sp-based access (the machine is stuck otherwise); sp-relative stack arguments are exact; the emitters report no error *)
+(* AArch64 round trip - for every frame of a cdecl-like convention (AAPCS64 / Apple / Windows ARM64: D registers preserved)
+   without dynamic alignment (exactly the frames finalize accepts at HEAD, see C07_roundtrip_a64_accepted / C07_accepted_frames) and
+   with sp as the stack-argument base or the SA-register repair (`fi_sa_fix = true`: HEAD, 872941b - any SA register and FP-relative
+   arguments are covered), every dirty mask, size, FP setting, entry state and confined body: stp/str pre-index, mov x29, sp,
+   sub sp / add sp, ldp/ldr post-index restore sp, x29, x30 and every callee-saved X/D register and return to the caller's x30; sp is
+   16-byte aligned at every sp-based access (the machine is stuck otherwise); sp-relative stack arguments are exact; the emitters
+   report no error *)
 Theorem C07_roundtrip_a64 : forall f, wf_in f -> fi_arch f = A64 ->
   (qget (cc_srsize (fi_cc f)) 1 = 8 \/ fin_saved f 1 = 0) -> fin_has_da f = false -> (fi_sa_reg f = id_bad \/ fi_sa_fix f = true) -> fo_stack_adj (finalize f) <= 16777215 ->
   forall s0,
@@ -262,3 +265,191 @@ Theorem C07_alignment_x86_fixed : forall f, wf_in f -> is_x86_family (fi_arch f)
   x86_sp_body f sp0 mod final_alignment f = 0.
 Proof. exact x86_sp_body_aligned_fixed. Qed.
 Print Assumptions C07_alignment_x86_fixed.
+
+(* round 5 - what must NOT change, x86/x64, EVERY frame / entry state / confined body (hypotheses of C07_roundtrip_x86):
+   the prolog leaves the caller's memory - everything at or above the entry sp: return address, stack arguments, caller frame -
+   untouched, stores nothing below the extra-register save area (call area, local area, below the body sp: all its stores are inside
+   [body sp + extra_off, entry sp)) and changes no register except sp, bp (when frame pointer) and the SA register, so register and
+   stack arguments reach the body; the epilog writes NO memory and changes only sp, bp (frame pointer) and the registers the frame saved, so return values and
+   every register the frame did not save leave the function exactly as the body left them *)
+Theorem C07_frame_conditions_x86 : forall f, wf_in f -> is_x86_family (fi_arch f) = true -> x86_regs_exist f ->
+  forall s0 ra,
+  let a := fi_arch f in let o := finalize f in let ws := reg_size a in let sp0 := st_reg s0 0 4 in
+  st_ret s0 = None -> holds (st_mem s0) sp0 ws ra ->
+  (sp0 + ws) mod cc_natural (fi_cc f) = 0 -> fin_pp f <= sp0 < 2 ^ (8 * ws) ->
+  exists s1, run a (x86_prolog f o) s0 = Some s1 /\
+    (forall x, sp0 <= x -> st_mem s1 x = st_mem s0 x) /\
+    (forall x, x < x86_sp_body f sp0 + fo_extra_off o -> st_mem s1 x = st_mem s0 x) /\
+    (forall g r, (g, r) <> (0, 4) -> (fi_has_fp f = true -> (g, r) <> (0, 5)) -> (fin_sa f <> 4 -> (g, r) <> (0, fin_sa f)) ->
+                 st_reg s1 g r = st_reg s0 g r) /\
+    forall s2, body_ok f s0 s1 s2 ->
+      exists s3, run a (x86_epilog f o) s2 = Some s3 /\
+        st_mem s3 = st_mem s2 /\
+        (forall g r, (g, r) <> (0, 4) -> (fi_has_fp f = true -> (g, r) <> (0, 5)) -> Z.testbit (saved_regs f o g) r = false ->
+                     st_reg s3 g r = st_reg s2 g r).
+Proof. exact x86_frame_conditions. Qed.
+Print Assumptions C07_frame_conditions_x86.
+
+(* AArch64 (hypotheses of C07_roundtrip_a64): the prolog writes memory ONLY inside the push/pop save area [sp0 - size, sp0) - the
+   caller's memory and everything below the save area (call area, locals) are untouched - and changes no register except sp, x29
+   (frame pointer) and the SA register; the epilog writes no memory and changes only sp and the saved registers *)
+Theorem C07_frame_conditions_a64 : forall f, wf_in f -> fi_arch f = A64 ->
+  (qget (cc_srsize (fi_cc f)) 1 = 8 \/ fin_saved f 1 = 0) -> fin_has_da f = false -> (fi_sa_reg f = id_bad \/ fi_sa_fix f = true) -> fo_stack_adj (finalize f) <= 16777215 ->
+  forall s0,
+  let o := finalize f in let sp0 := st_reg s0 0 31 in
+  st_ret s0 = None -> sp0 mod 16 = 0 -> 0 <= st_reg s0 0 30 < 2 ^ 64 ->
+  exists s1, run A64 (fst (prolog f o)) s0 = Some s1 /\
+    (forall z, z < sp0 - fin_pp f \/ sp0 <= z -> st_mem s1 z = st_mem s0 z) /\
+    (forall g r, (g, r) <> (0, 31) -> (fi_has_fp f = true -> (g, r) <> (0, 29)) -> (fin_sa f <> 31 -> (g, r) <> (0, fin_sa f)) ->
+                 st_reg s1 g r = st_reg s0 g r) /\
+    forall s2, a64_body_ok f s0 s1 s2 ->
+      exists s3, run A64 (fst (epilog f o)) s2 = Some s3 /\
+        st_mem s3 = st_mem s2 /\
+        (forall g r, (g, r) <> (0, 31) -> Z.testbit (saved_regs f o g) r = false -> st_reg s3 g r = st_reg s2 g r).
+Proof. exact a64_frame_conditions. Qed.
+Print Assumptions C07_frame_conditions_a64.
+
+(* non-vacuity: frames in the scope of both theorems with registers on either side of the "saved" premise *)
+Theorem C07_frame_conditions_satisfiable :
+  (exists f, wf_in f /\ is_x86_family (fi_arch f) = true /\ x86_regs_exist f /\
+    Z.testbit (saved_regs f (finalize f) 0) 0 = false /\ Z.testbit (saved_regs f (finalize f) 0) 1 = false /\
+    Z.testbit (saved_regs f (finalize f) 0) 3 = true /\ Z.testbit (saved_regs f (finalize f) 1) 6 = true /\
+    Z.testbit (saved_regs f (finalize f) 1) 0 = false /\ fin_sa f <> 0 /\ fin_sa f <> 1) /\
+  (exists f, wf_in f /\ fi_arch f = A64 /\ qget (cc_srsize (fi_cc f)) 1 = 8 /\ fin_has_da f = false /\ fi_sa_reg f = id_bad /\
+    fo_stack_adj (finalize f) <= 16777215 /\
+    Z.testbit (saved_regs f (finalize f) 0) 0 = false /\ Z.testbit (saved_regs f (finalize f) 1) 0 = false /\
+    Z.testbit (saved_regs f (finalize f) 0) 19 = true /\ Z.testbit (saved_regs f (finalize f) 0) 29 = true /\
+    Z.testbit (saved_regs f (finalize f) 1) 8 = true /\ 0 < fin_pp f).
+Proof. exact (conj ex_frame_conditions_x86_sat ex_frame_conditions_a64_sat). Qed.
+Print Assumptions C07_frame_conditions_satisfiable.
+
+(* round 5: what verdict 0 of the plain-frame scenario (FrameExec.exec_frame, run by the check on the IMPLEMENTATION's prolog and
+   epilog of every frame) means, for ANY instruction lists: the prolog runs on the proven machine, the second component is the
+   body sp, the epilog runs after the most hostile confined body, returns to the return address with the required sp, and every
+   preserved register of every group has its entry value on its save width.  With C07_exec_scenario_ok_x86 / _a64 (the model's own
+   lists get verdict 0) both directions of the verdict are proved. *)
+Theorem C07_exec_frame_sound : forall a pro epi sp0 ra dirty preserved srsize has_fp csize local_off lsize cleanup,
+  fst (exec_frame a pro epi sp0 ra dirty preserved srsize has_fp csize local_off lsize cleanup) = 0 ->
+  let s0 := init_state a sp0 ra in
+  exists s1 s3,
+    run a pro s0 = Some s1 /\
+    snd (exec_frame a pro epi sp0 ra dirty preserved srsize has_fp csize local_off lsize cleanup) = st_reg s1 0 (sp_id a) /\
+    run a epi (poison_body a s1 dirty has_fp csize local_off lsize) = Some s3 /\
+    st_ret s3 = Some ra /\ st_reg s3 0 (sp_id a) = sp0 + ret_addr_size a + cleanup /\
+    (forall g r, 0 <= g <= 3 -> In r (bits_of 32 (qget preserved g)) -> ~ (g = 0 /\ r = sp_id a) ->
+       trunc (if g =? 0 then reg_size a else qget srsize g) (st_reg s3 g r) = trunc (if g =? 0 then reg_size a else qget srsize g) (st_reg s0 g r)).
+Proof. exact exec_frame_sound. Qed.
+Print Assumptions C07_exec_frame_sound.
+
+(* non-vacuity: verdict 0 is reached (Win64 example frame, its own lists) and the verdict discriminates (the same frame with the
+   reload of xmm6 dropped from the epilog: verdict 132 + 6) *)
+Theorem C07_exec_frame_verdicts :
+  ex_exec (x86_epilog ex_win64 (finalize ex_win64)) = 0 /\ ex_exec (tl (x86_epilog ex_win64 (finalize ex_win64))) = 138.
+Proof. exact ex_exec_frame_verdicts. Qed.
+Print Assumptions C07_exec_frame_verdicts.
+
+(* round 5: the accept/refuse decision of FuncFrame::finalize() is inside the model (finalize_error: kTooLarge above 0x7FFF0000,
+   kInvalidState for unrealisable AArch64 frames; compared with the implementation on every frame, refusals included).
+   EVERY frame finalize accepts is inside the range where the uint32_t arithmetic does not wrap and the x86 immediates fit, and an
+   accepted AArch64 frame is realisable (scope of C07_roundtrip_a64_accepted): the refusals are strong enough for the theorems *)
+Theorem C07_accepted_frames : forall f, wf_in f -> fi_local_align f <= 128 -> fi_call_align f <= 128 -> fi_arg_stack_size f < 2 ^ 16 ->
+  finalize_error f = 0 ->
+  fi_call_size f + fi_local_size f <= 2 ^ 31 - 2 ^ 16 /\
+  (fi_arch f = A64 -> a64_realisable f = true) /\
+  let o := finalize f in
+  0 <= fo_local_off o /\ fo_local_off o <= fo_extra_off o /\ fo_extra_off o + fo_extra_size o <= fo_stack_adj o /\
+  fo_stack_adj o < 2 ^ 31 - 2 ^ 15 /\ 0 <= fo_final_size o < 2 ^ 31 - 2 ^ 15 /\
+  fo_sa_from_sp o < 2 ^ 31 /\ 0 <= fo_sa_from_sa o < 2 ^ 31 /\ fo_da_off o < 2 ^ 31 /\
+  0 <= fo_push_pop_size o <= 2112 /\ 0 <= fo_callee_cleanup o < 2 ^ 16 /\ - 2 ^ 31 <= - fo_final_align o.
+Proof. exact accepted_frames. Qed.
+Print Assumptions C07_accepted_frames.
+
+(* ... and not stronger than stated: finalize refuses ONLY frames above the size limit and unrealisable AArch64 frames *)
+Theorem C07_refused_frames : forall f, finalize_error f <> 0 ->
+  2 ^ 31 - 2 ^ 16 < fi_call_size f + fi_local_size f \/ (fi_arch f = A64 /\ a64_realisable f = false).
+Proof. exact refused_frames. Qed.
+Print Assumptions C07_refused_frames.
+
+(* non-vacuity: accepted frames exist on x64 and AArch64 (with the hypotheses of C07_accepted_frames), both refusals occur *)
+Theorem C07_finalize_error_examples :
+  finalize_error ex_win64 = 0 /\ finalize_error ex_a64_ok = 0 /\ finalize_error ex_a64_align32 = 3 /\ finalize_error ex_too_large = 9 /\
+  wf_in ex_win64 /\ fi_local_align ex_win64 <= 128 /\ fi_call_align ex_win64 <= 128 /\ fi_arg_stack_size ex_win64 < 2 ^ 16.
+Proof. exact ex_finalize_error. Qed.
+Print Assumptions C07_finalize_error_examples.
+
+(* round 5, translator tie: coq/gen/C07SourceData.v is regenerated on every run from the C++ SOURCE of the tree under test
+   (tools/c07_translate.py interprets x86/a64 FuncInternal::init_call_conv for every architecture, platform and CallConvId enumerator,
+   applies FuncFrame::init's removal of SP, and reads the constants of FuncFrame::finalize / FuncFrame::init / the AArch64 emitters and
+   the Error enum).  The model's conventions are EXACTLY the translated table ... *)
+From VerifGen Require C07SourceData.
+Theorem C07_source_cc_table : Forall C07SourceData.src_row_agrees C07SourceData.src_cc_table.
+Proof. exact C07SourceData.src_cc_table_agrees. Qed.
+Print Assumptions C07_source_cc_table.
+
+(* ... and the thresholds of the model are the source's: size limit and error code of finalize's kTooLarge refusal, vector save
+   width and error code of the AArch64 refusal, both immediate limits of the AArch64 sub/add sp, the floor of the minimum dynamic alignment *)
+Theorem C07_source_constants :
+  frame_size_limit = C07SourceData.src_frame_size_limit /\
+  (forall f, frame_size_limit < fi_call_size f + fi_local_size f -> finalize_error f = C07SourceData.src_err_too_large) /\
+  (forall f, fi_call_size f + fi_local_size f <= frame_size_limit -> fi_arch f = A64 -> a64_realisable f = false -> finalize_error f = C07SourceData.src_err_a64_refusal) /\
+  (forall f, a64_realisable f = negb (fin_has_da f) && ((qget (cc_srsize (fi_cc f)) 1 <=? C07SourceData.src_a64_vec_save_max) || (fin_saved f 1 =? 0))) /\
+  (forall sub, snd (a64_adjust sub C07SourceData.src_a64_imm_one) = true /\ length (fst (a64_adjust sub C07SourceData.src_a64_imm_one)) = 1%nat /\
+               length (fst (a64_adjust sub (C07SourceData.src_a64_imm_one + 1))) = 2%nat /\
+               snd (a64_adjust sub C07SourceData.src_a64_imm_two) = true /\ snd (a64_adjust sub (C07SourceData.src_a64_imm_two + 1)) = false) /\
+  (forall n, min_dynamic_alignment n = let m := Z.max n C07SourceData.src_min_dynamic_floor in if m =? n then 2 * m else m).
+Proof. exact C07SourceData.src_constants_agree. Qed.
+Print Assumptions C07_source_constants.
+
+(* non-vacuity: the table is not empty and has accepting and refusing rows *)
+Theorem C07_source_table_size : (length C07SourceData.src_cc_table >= 100)%nat /\
+  (exists o, In (X64, 1, 33, Some o) C07SourceData.src_cc_table) /\ In (X86, 0, 32, None) C07SourceData.src_cc_table.
+Proof. exact C07SourceData.src_cc_table_nonvacuous. Qed.
+Print Assumptions C07_source_table_size.
+
+(* round 5: the other side of the AArch64 adjustment threshold - a stack adjustment above 16777215 is REFUSED by both emitters (error
+   flag, empty epilog), never silently mis-encoded; with C07_roundtrip_a64 (adjustment <= 16777215) the case split is complete *)
+Theorem C07_a64_large_adjust_refused : forall f, fi_arch f = A64 -> 16777215 < fo_stack_adj (finalize f) ->
+  snd (prolog f (finalize f)) = false /\ epilog f (finalize f) = ([], false).
+Proof. exact a64_large_adjust_refused. Qed.
+Print Assumptions C07_a64_large_adjust_refused.
+
+Theorem C07_a64_large_adjust_satisfiable :
+  fi_arch ex_a64_huge = A64 /\ 16777215 < fo_stack_adj (finalize ex_a64_huge) /\ finalize_error ex_a64_huge = 0.
+Proof. exact ex_a64_huge_sat. Qed.
+Print Assumptions C07_a64_large_adjust_satisfiable.
+
+(* round 5 - stack arguments END TO END (x86/x64, every frame and entry state): whatever the caller stored in the argument area
+   (any offset >= 0 above the return address, any width) is readable after the prolog, with the caller's value, at the addresses
+   the frame REPORTS: [sp + sa_offset_from_sp] (when reported), [SA register + sa_offset_from_sa], [bp + sa_offset_from_sa] *)
+Theorem C07_stack_args_intact_x86 : forall f, wf_in f -> is_x86_family (fi_arch f) = true -> x86_regs_exist f ->
+  forall s0,
+  let a := fi_arch f in let o := finalize f in let ws := reg_size a in let sp0 := st_reg s0 0 4 in
+  st_ret s0 = None -> (sp0 + ws) mod cc_natural (fi_cc f) = 0 ->
+  exists s1, run a (x86_prolog f o) s0 = Some s1 /\
+    forall off n v, 0 <= off -> holds (st_mem s0) (sp0 + ws + off) n v ->
+      (fo_sa_from_sp o <> -1 -> holds (st_mem s1) (st_reg s1 0 4 + fo_sa_from_sp o + off) n v) /\
+      (fin_sa f <> 4 -> holds (st_mem s1) (st_reg s1 0 (fin_sa f) + fo_sa_from_sa o + off) n v) /\
+      (fi_has_fp f = true -> holds (st_mem s1) (st_reg s1 0 5 + fo_sa_from_sa o + off) n v).
+Proof. exact x86_stack_args_intact. Qed.
+Print Assumptions C07_stack_args_intact_x86.
+
+(* the same on AArch64 (scope of C07_roundtrip_a64): [sp + sa_offset_from_sp], [x29 + sa_offset_from_sa], [SA register + sa_offset_from_sa] *)
+Theorem C07_stack_args_intact_a64 : forall f, wf_in f -> fi_arch f = A64 ->
+  (qget (cc_srsize (fi_cc f)) 1 = 8 \/ fin_saved f 1 = 0) -> fin_has_da f = false -> (fi_sa_reg f = id_bad \/ fi_sa_fix f = true) -> fo_stack_adj (finalize f) <= 16777215 ->
+  forall s0,
+  let o := finalize f in let sp0 := st_reg s0 0 31 in
+  st_ret s0 = None -> sp0 mod 16 = 0 ->
+  exists s1, run A64 (fst (prolog f o)) s0 = Some s1 /\
+    forall off n v, 0 <= off -> holds (st_mem s0) (sp0 + off) n v ->
+      holds (st_mem s1) (st_reg s1 0 31 + fo_sa_from_sp o + off) n v /\
+      (fi_sa_fix f = true -> fi_has_fp f = true -> holds (st_mem s1) (st_reg s1 0 29 + fo_sa_from_sa o + off) n v) /\
+      (fin_sa f <> 31 -> holds (st_mem s1) (st_reg s1 0 (fin_sa f) + fo_sa_from_sa o + off) n v).
+Proof. exact a64_stack_args_intact. Qed.
+Print Assumptions C07_stack_args_intact_a64.
+
+(* non-vacuity: each addressing mode of the two theorems occurs in an example frame *)
+Theorem C07_stack_args_modes_occur :
+  fo_sa_from_sp (finalize ex_x86_align8) <> -1 /\ fin_sa ex_win64 <> 4 /\ fo_sa_from_sp (finalize ex_win64) = -1 /\
+  fi_has_fp ex_a64_ok = true /\ fin_sa ex_a64_sa_fixed <> 31.
+Proof. exact ex_stack_args_sat. Qed.
+Print Assumptions C07_stack_args_modes_occur.
